@@ -487,6 +487,7 @@ func (t *wScreen) Suspend() error {
 	t.enableMouse(0)
 	t.enablePasting(false)
 	js.Global().Set("onKeyEvent", js.FuncOf(t.unset)) // stop keypresses
+	t.Unlock()
 	return nil
 }
 
@@ -494,6 +495,7 @@ func (t *wScreen) Resume() error {
 	t.Lock()
 
 	if t.running {
+		t.Unlock()
 		return errors.New("already engaged")
 	}
 	t.running = true
